@@ -78,13 +78,14 @@ pub fn emit(built: &Built, generated: &str) -> String {
         let e = type_entry(key);
         let datum = def.datum_definitions().nth(id).unwrap();
         l!(
-            "    FieldMeta {{ datum: {}, name: {:?}, ty: {:?}, key: {:?}, uninit_ok: {}, tracked: {}, zst: {}, counted_class: {}, size: {}, align: {}, offset: {}, norm: <{} as Val>::norm }},",
+            "    FieldMeta {{ datum: {}, name: {:?}, ty: {:?}, key: {:?}, uninit_ok: {}, tracked: {}, instances: <{} as Val>::INSTANCES, zst: {}, counted_class: {}, size: {}, align: {}, offset: {}, norm: <{} as Val>::norm }},",
             id,
             datum.name(),
             datum.details().type_name(),
             key,
             datum.details().allow_uninit(),
             e.tracked,
+            e.path,
             e.zst,
             e.counted_class,
             datum.details().size(),
